@@ -7,9 +7,10 @@ parameter columns; domain level: row i // n).  Interior samples must satisfy phi
 must lie on the true boundary (level set within tol AND two-sided), coordinates must be finite, and the call
 must return within its logical progress budget.
 """
+import math
 import numpy as np
 
-from .. import geo, sampling, probes
+from .. import geo, gen_geo, sampling, probes
 from ..core import viol
 
 LEVEL = "exploration"
@@ -50,6 +51,32 @@ def gen_cases(seed, tier):
                 c["calls"].append({"lvl": "sampler", "target": "interior", "fn": fn, "by": "n",
                                    "n": int(rng.choice([3, 8, 20])), "ratio": float(rng.choice([0.3, 0.5, 0.7])),
                                    "p2": "reverse"})
+    # a thin bar crossing a disc / rectangle (cut and union): grid sampling on the boundary by n re-scales its grids, the
+    # covered boundary piece is shorter than the spacing of the first grid for many n
+    rng2 = np.random.default_rng([seed, 102])
+    for i in range(12 if tier == "quick" else 400):
+        sc = float(rng2.uniform(0.6, 1.6))
+        c = rng2.uniform(-2, 2, 2) * sc
+        if i % 3 == 2:
+            A = {"prim": "parallelogram", "var": "x", "origin": [float(c[0] - sc), float(c[1] - sc)], "c1": [float(c[0] + sc), float(c[1] - sc)],
+                 "c2": [float(c[0] - sc), float(c[1] + sc)]}
+        else:
+            A = {"prim": "circle", "var": "x", "center": [float(c[0]), float(c[1])], "radius": sc}
+        ang = float(rng2.uniform(0, math.pi))
+        wdt, ln = sc * float(rng2.uniform(0.08, 0.16)), sc * float(rng2.uniform(2.6, 3.2))
+        d1 = ln * np.array([math.cos(ang), math.sin(ang)])
+        d2 = wdt * np.array([-math.sin(ang), math.cos(ang)])
+        o = c - 0.5 * d1 - 0.5 * d2 + rng2.uniform(-0.2, 0.2, 2) * sc
+        B = {"prim": "parallelogram", "var": "x", "origin": [float(o[0]), float(o[1])], "c1": [float((o + d1)[0]), float((o + d1)[1])],
+             "c2": [float((o + d2)[0]), float((o + d2)[1])]}
+        op = "cut" if i % 2 == 0 else "union"
+        spec = {"op": op, "a": A, "b": B}
+        kk_ = int(rng2.choice([0, 0, 2]))
+        # (domain-level sample_grid with several parameter rows is outside the contract, DESIGN.md 2.5: samplers only)
+        calls = [{"lvl": "sampler" if kk_ > 1 else str(rng2.choice(["domain", "sampler"])), "target": "boundary", "fn": "grid", "by": "n", "n": int(n_)}
+                 for n_ in rng2.choice(np.arange(5, 61), size=14, replace=False)]
+        cases.append({"spec": spec, "rows": gen_geo.param_rows(rng2, kk_), "k": kk_, "calls": calls, "seed": int(rng2.integers(0, 2 ** 31)),
+                      "info": {"kind": "bool", "dim": 2, "dep": False, "relations": ["%s:thin_bar" % op], "desc": geo.ref(spec).desc() + "~bar"}})
     return cases
 
 
